@@ -10,7 +10,7 @@ RULE = ("BatchNorm1d/2d histories of 5-30 events over {train(), eval(), forward(
         "(batch statistics + biased variance in training, exactly one EMA/CMA update with the unbiased variance and one counter increment per "
         "training forward, running statistics untouched and used in eval, repeated eval calls digest-identical); Dropout p in {0,0.1,0.3,0.5,0.9,1}: "
         "eval identity, training survivors = x/(1-p) to the dtype's rounding, zero rate and lag-1 row/column mask correlation in 6-sigma bands "
-        "(n>=40000), per-position rate over 300 repeated calls, gradient = g*mask/(1-p). distinct key = event-kind sequence + configuration; "
+        "(n>=40000), per-position rate over 300 repeated calls, gradient = g*mask/(1-p); nested-mode scenario: Dropout / BatchNorm inside parent modules with diverging modes must follow the parent's last train()/eval(). distinct key = event-kind sequence + configuration; "
         "non-trivial = history has a mode switch and >= 2 training forwards (BN) / p in (0,1) (dropout)")
 ASSUMPTIONS = ["BatchNorm training on one value per channel: raising is accepted (PyTorch raises); the counter may or may not have advanced (PyTorch "
                "advances it); what is asserted is that the buffers never become non-finite and otherwise stay as they were",
